@@ -32,4 +32,4 @@ def run(ck):
               "uploads directory empty after every request. non-trivial = distinct bodies",
               "partitions", "bodies", min_evals=20000,
               required_nonzero=("bodies_with_all_cuts", "partitions_with_spill", "malformed_refused", "malformed_bodies",
-                                "uploads_compared", "refusals_checked", "incomplete_checked", "raw_filter_checked", "multipart_filter_checked", "on_error_notifications"))
+                                "uploads_compared", "refusals_checked", "incomplete_checked", "raw_filter_checked", "multipart_filter_checked", "on_error_notifications", "filter_aborts_checked"))
